@@ -72,6 +72,9 @@ def run_impl(sc):
                 if j in evobjs:
                     states[s].to(states[t], internal=bool(internal), event=evobjs[j])
                     continue
+                if sc.get("empty_event") == j and hasev:
+                    states[s].to(states[t], internal=bool(internal), event="")
+                    continue
                 tl = states[s].to(states[t], internal=bool(internal))
                 if hasev:
                     attrs[f"e{j}"] = tl
@@ -151,6 +154,8 @@ def render_source(sc):
         lines.append("# M inherits from an abstract class declared with strict_states=True and is itself declared without the keyword")
     if sc.get("equal_values"):
         lines.append(f"# states {sc['equal_values']} have the values 1 and True (equal as dictionary keys)")
+    if sc.get("empty_event") is not None:
+        lines.append(f"# transition {sc['empty_event']} is declared as a bare statement with event=\"\" (the empty id) instead of `e{sc['empty_event']} = ...`")
     if sc.get("events_first"):
         lines.append("# the events are `eJ = Event()` attributes written before the states; the transitions use event=eJ")
     if sc.get("dup_names"):
@@ -312,6 +317,10 @@ def generate(rng, tier):
                 d["events_first"] = True
             if d["any"] and not d.get("via_enum") and all(tr[0] != t_ for tr in d["trans"] for t_, _i in d["any"]) and rng.random() < 0.7:
                 d["shared_any"] = True
+            with_ev = [j_ for j_, tr in enumerate(d["trans"]) if tr[3]]
+            if len(with_ev) == 1 and not d["any"] and not d.get("events_first") and rng.random() < 0.5:
+                # the only event of the class is declared with an empty id (`a.to(b, event="")`): still an event
+                d["empty_event"] = with_ev[0]
             if rng.random() < 0.15:
                 # a transition whose target is a State object that is not a state of the class
                 d["trans"].insert(rng.randint(0, len(d["trans"])), [rng.randrange(len(d["states"])), len(d["states"]), 0, 1])
